@@ -190,25 +190,34 @@ class QM:
 
     def _facts(self, rounds):
         inst, seen = [], None
+        cache = self.__dict__.setdefault("_inst_cache", {})       # (fact, term) -> simplified instance
         for _ in range(rounds):
             inst = []
             for n in list(self.name_terms):
                 for fn in list(self.name_facts):
-                    inst.append(fn(n))
+                    key = (id(fn), n.get_id())
+                    if key not in cache:
+                        cache[key] = z3.simplify(fn(n))
+                    inst.append(cache[key])
             idx = list(self.index_terms)
             for (t, _len) in idx:
                 for (length, fn) in list(self.foralls):
-                    inst.append(z3.Implies(z3.And(t >= 0, t < length) if length is not None else (t >= 0), fn(t)))
+                    key = (id(fn), t.get_id())
+                    if key not in cache:
+                        cache[key] = z3.simplify(z3.Implies(z3.And(t >= 0, t < length) if length is not None else (t >= 0), fn(t)))
+                    inst.append(cache[key])
             self.extensionality()
             state = (len(inst), len(self.index_terms), len(self.foralls), len(self.links), len(self.name_terms))
             if state == seen:
                 break
             seen = state
-        out = list(self.links) + inst
         # de-duplicate
         uniq = {}
-        for f in out:
+        for f in self.links:
             f = z3.simplify(f)
+            if not z3.is_true(f):
+                uniq[f.get_id()] = f
+        for f in inst:
             if not z3.is_true(f):
                 uniq[f.get_id()] = f
         return list(uniq.values())
@@ -330,6 +339,8 @@ class ChildFamily:
                 templ.fields["_inner"] = inner.child(I, t)
                 dt = spec._table_den(I, templ, pt)
                 facts = [d.D == dt.D, z3.Implies(d.D, d.V == dt.V)]
+                if cls_name == "Reciprocal":
+                    facts.append(z3.Implies(d.D, d.V * spec.den(I, inner.child(I, t), pt).V == 1))    # product form of 1/x
                 facts += [z3.Implies(d.D, d.dV(n) == dt.dV(n)) for n in I.ghost.get("ambient_names", [])]
                 return z3.Implies(self.tagF(t) == sym.CLS[cls_name], z3.And(*facts))
             q.foralls.append((self.length, fact))
